@@ -131,6 +131,114 @@ class DeleteRateCellsKeep(Contract):
         V.oblige("post:prefix-contract-reached-the-end-unexpectedly", z3.BoolVal(True))
 
 
+class DeleteRateCells(Contract):
+    """Full contract of delete_rate_cells for a csr matrix without an incoming index list (the call `cut_and_merge` makes when only
+    the upper limit is given): with K = `to_keep` (proved strictly ascending complement of `to_remove`, see DeleteRateCellsKeep),
+      * the result is |K| x |K|, entry (a,b), a != b, is M[K_a, K_b]; every row sums to zero (diagonal re-set);
+      * the returned index list has exactly |K| groups and group a is [K_a]  -- rows and groups stay aligned;
+      * the input matrix's stored data is untouched.
+    Column/row selection is the scipy contract `A[:, idx]` / `A[idx, :]` (pyvc/lib_sp.py: _sp_fancy_select), the list filter
+    `[x for i, x in enumerate(L) if i in to_keep]` is the filter contract; that its survivors are the kept rows *in the same order*
+    is the lemma `enum_unique` (lemmas/C13EnumUnique.lean, Lean 4 / Mathlib, all lengths), whose four hypotheses are the
+    `lemma-pre:*` obligations discharged here."""
+    target = f"{REL}::delete_rate_cells"
+    variants = ("no-index-list/full",)
+    property_ids = ("C13",)
+    expected = ("post:reduced-shape", "post:off-diagonal-entries-are-the-original-ones", "post:rows-sum-to-zero",
+                "post:one-group-per-row", "post:group-a-is-the-singleton-of-kept-row-a",
+                "lemma-pre:kept-rows-strictly-ascending", "lemma-pre:every-kept-row-keeps-its-group",
+                "lemma-pre:every-kept-group-is-a-kept-row")
+
+    def setup(self, V, variant):
+        n = V.int("n", lo=1)
+        M, pat, data = csr_input(V, "M", n)
+        k = V.int("n_remove", lo=0)
+        rem = V.vec("to_remove", k, "int", facts=lambda v, kk: [v >= 0, v < n], kind="list")
+        V.env.update(n=n, rem=rem, k=k, M=M, pat=pat, data=data)
+        self._env = V.env
+        return [M, rem], {}
+
+    to_case = DeleteRateCellsKeep.to_case
+
+    @property
+    def observe(self):
+        def hook(interp, frame, val):
+            self._env["keep"] = val
+        return {"to_keep": hook}
+
+    def post(self, V, variant, env, outcome):
+        ctx = V.ctx
+        if outcome[0] != "return":
+            V.oblige(f"post:no-exception[{outcome[1]}]", False)
+            return
+        r = outcome[1]
+        if not (isinstance(r, Tup) and len(r.items) == 2 and isinstance(r.items[0], Sparse) and isinstance(r.items[1], Vec)):
+            V.oblige("post:returns-(sparse matrix, index list)", False)
+            return
+        R, L = r.items
+        keep, M, n, k = env.get("keep"), env["M"], env["n"], env["k"]
+        if not isinstance(keep, Vec) or getattr(keep, "filter_of", None) is None:
+            raise Unsupported("`to_keep` is not recognisable as an ascending enumeration (filter contract)")
+        fi = getattr(L, "filter_idx", None)
+        if fi is None or getattr(fi, "filter_of", None) is None:
+            raise Unsupported("the returned index list is not recognisable as a filtered copy of the internal index list")
+        c = zint(keep.length)
+        a, b = z3.Int("a13d"), z3.Int("b13d")
+        u = lambda x: zint(to_num(vget(ctx, keep, x)).z)
+        w = lambda x: zint(to_num(vget(ctx, fi, x)).z)
+        rng = z3.And(a >= 0, a < c, b >= 0, b < c)
+        V.oblige("post:fmt-kept", z3.BoolVal(R.fmt == "csr"))
+        V.oblige("post:reduced-shape", z3.And(zint(R.nrows) == c, zint(R.ncols) == c))
+        V.oblige("post:off-diagonal-entries-are-the-original-ones",
+                 z3.Implies(z3.And(rng, a != b), as_real(R.dense(ctx, a, b)) == as_real(M.dense(ctx, u(a), u(b)))))
+        V.oblige("post:rows-sum-to-zero", z3.Implies(z3.And(a >= 0, a < c), R.rowsum(ctx, a) == 0))
+        # kept rows = exactly the rows not listed (restated here so that this contract stands alone)
+        q = z3.Int("q13d")
+        rem = env["rem"].zfun
+        V.oblige("post:kept-rows-are-not-removed", z3.Implies(z3.And(a >= 0, a < c, q >= 0, q < k), z3.And(u(a) >= 0, u(a) < n, rem(q) != u(a))))
+        # lemma enum_unique: hypotheses ...
+        lenA, condA, idxA, invA = keep.filter_of
+        lenB, condB, idxB, invB = fi.filter_of
+        cw = zint(fi.length)
+        k1, k2 = z3.Int("k13d"), z3.Int("kk13d")
+        V.oblige("lemma-pre:kept-rows-strictly-ascending", z3.Implies(z3.And(0 <= k1, k1 < k2, k2 < c), u(k1) < u(k2)))
+        V.oblige("lemma-pre:list-positions-strictly-ascending", z3.Implies(z3.And(0 <= k1, k1 < k2, k2 < cw), w(k1) < w(k2)))
+        V.oblige("lemma-pre:every-kept-row-keeps-its-group",
+                 z3.Implies(z3.And(0 <= k1, k1 < c), z3.And(0 <= invB(u(k1)), invB(u(k1)) < cw, w(invB(u(k1))) == u(k1))))
+        V.oblige("lemma-pre:every-kept-group-is-a-kept-row",
+                 z3.Implies(z3.And(0 <= k1, k1 < cw), z3.And(0 <= invA(w(k1)), invA(w(k1)) < c, u(invA(w(k1))) == w(k1))))
+        # ... conclusion (Lean: enum_unique), instantiated at the row `a` the post-conditions talk about
+        ctx.assume(z3.And(c == cw, z3.Implies(z3.And(0 <= a, a < c), u(a) == w(a))))
+        V.ctx.__dict__.setdefault("lean_lemmas_used", set()).add("lemmas/C13EnumUnique.lean::enum_unique")
+        V.oblige("post:one-group-per-row", zint(L.length) == zint(R.nrows))
+        ctx.binder_stack.append([])
+        try:
+            g = vget(ctx, L, a)
+        finally:
+            ctx.binder_stack.pop()
+        if not isinstance(g, Vec):
+            V.oblige("post:groups-are-lists", False)
+            return
+        V.oblige("post:group-a-is-the-singleton-of-kept-row-a",
+                 z3.Implies(z3.And(0 <= a, a < c), z3.And(zint(g.length) == 1, zint(to_num(vget(ctx, g, 0)).z) == u(a))))
+        V.forall("frame:input-data-unchanged", env["pat"].nnz, lambda kk: as_real(to_num(vget(ctx, M.data, kk))) == env["data"].zfun(kk))
+
+    def mustfail(self, V, variant, env, outcome):
+        ctx = V.ctx
+        r = outcome[1]
+        if not (isinstance(r, Tup) and len(r.items) == 2 and isinstance(r.items[0], Sparse)):
+            return
+        R, M = r.items[0], env["M"]
+        keep = env.get("keep")
+        if not isinstance(keep, Vec):
+            return
+        c = zint(keep.length)
+        a, b = z3.Int("a13m"), z3.Int("b13m")
+        V.oblige("mustfail:entries-not-re-indexed", z3.Implies(z3.And(a >= 0, a < c, b >= 0, b < c, a != b),
+                 as_real(R.dense(ctx, a, b)) == as_real(M.dense(ctx, a, b))), kind="mustfail")
+        V.oblige("mustfail:nothing-is-ever-removed", c == env["n"], kind="mustfail")
+
+
 class CutAndMerge(Contract):
     target = f"{TREL}::SQRA.cut_and_merge"
     variants = ("none,none", "lower,none", "none,upper", "lower,upper")
@@ -191,12 +299,17 @@ class ReducerAssumed(Contract):
 
     def apply(self, interp, func, args, kwargs):
         ctx = interp.ctx
-        interp.stats.setdefault("assumed_contracts", set()).add(f"{self.target.split('::')[1]}: returns (square matrix, index list with one group per row)")
         names = [a.arg for a in func.node.args.args]
         bound = dict(zip(names, args))
         bound.update(kwargs)
         M = bound["my_matrix"]
         idx = bound.get("index_list", NONE)
+        fn = self.target.split('::')[1]
+        if fn == "delete_rate_cells" and isinstance(idx, NoneV):
+            # this summary is exactly what contract DeleteRateCells proves (reduced-shape, one-group-per-row, rows-sum-to-zero)
+            interp.stats.setdefault("proved_callee_contracts", set()).add("delete_rate_cells(csr, index_list=None): summary = proved post-conditions of contract DeleteRateCells")
+        else:
+            interp.stats.setdefault("assumed_contracts", set()).add(f"{fn}: returns (square matrix, index list with one group per row)")
         if not isinstance(M, Sparse):
             raise Unsupported("reducer on a non-sparse matrix")
         if isinstance(idx, Vec):
@@ -222,6 +335,7 @@ class OpaqueFn(Contract):
 
 
 DeleteRateCellsKeep.apply = lambda self, interp, func, args, kwargs: ReducerAssumed(self.target, "to_remove").apply(interp, func, args, kwargs)
-CONTRACTS = [SqraNormalize(), DeleteRateCellsKeep(), CutAndMerge()]
+DeleteRateCells.apply = DeleteRateCellsKeep.apply
+CONTRACTS = [SqraNormalize(), DeleteRateCellsKeep(), DeleteRateCells(), CutAndMerge()]
 CALLEE_CONTRACTS = [ReducerAssumed(f"{REL}::merge_matrix_cells", "all_to_join"), OpaqueFn(f"{REL}::determine_rate_cells_to_join"),
                     OpaqueFn(f"{REL}::determine_rate_cells_with_too_high_energy")]
